@@ -283,6 +283,8 @@ impl InsertionHeuristic {
             match result {
                 InsertionResult::Success(success) => {
                     apply_insertion_success(&mut insertion_ctx, success);
+                    #[cfg(reinterpretcat_vrp_verif)]
+                    crate::verif::on_insertion_applied(&insertion_ctx);
                 }
                 InsertionResult::Failure(failure) => {
                     // NOTE copy data to make borrow checker happy
